@@ -6,7 +6,7 @@ Run on the unchanged tree only:  python3 tools/gen_skeletons.py"""
 import json, os, subprocess, sys
 sys.path.insert(0, "/verif")
 from vx.weave import Weaver
-REPO, ROOT = "/repo", "/verif"
+REPO, ROOT = os.environ.get("VERIF_REPO", "/repo"), "/verif"
 if subprocess.run(["git", "-C", REPO, "diff", "--quiet"]).returncode != 0:
     sys.exit("/repo has uncommitted changes - refusing")
 out = {}
